@@ -36,7 +36,8 @@ CFG = {'module': 'Dnp3.Props.C13',
  'assumptions': ['tokio timer and Notify semantics; xxh64 collision-free on compared fragments (model '
                  'compares octets)'],
  'level_text': 'Lean theorems for all states / histories: session model (exact IIN formula of every fresh '
-               'response; restart, broadcast and application bits) and database model (class bits = an '
+               'response; restart, broadcast and application bits; an unsolicited confirm clears the broadcast '
+               'record only if the confirmed response reported it: D16 repaired) and database model (class bits = an '
                'unwritten event of the class is buffered and the counter subtraction never underflows, for '
                'every operation sequence from a fresh database and per operation (D3 repaired: regression '
                'corpus db_D3); overflow bit interval); tie: correspondence of the real task and the real '
